@@ -1,9 +1,11 @@
 From PV.Model Require Import Machine Mapping Views Headers Convert.
-From PV.Spec Require Import MappingSpec ConvertSpec.
+From PV.Model Require Exports Imports.
+From PV.Spec Require Import MappingSpec ConvertSpec ConvertSimSpec.
 Require Import ExtrOcamlBasic.
 Extraction Language OCaml.
 Extraction "../ocaml/gen/convert_model.ml"
   pe_to_view pe_to_file to_view to_file validate sections h_soh h_soi data_dir fmt32 fmt64
   slice_file slice_section get_section_bytes rd_c_str
   view_ok_b file_ok_b view_words_b roundtrip_b prefix_b wf_sections wf_raw first_v mapped_len
-  stored_beyond_size_of_image raw_tail_not_mapped file_size_spec.
+  stored_beyond_size_of_image raw_tail_not_mapped file_size_spec
+  h_base Exports.view_by Imports.imports Imports.descs Imports.dll_name Imports.desc_iat Imports.thunk_values relocs_try_from.
